@@ -173,7 +173,7 @@ impl Check for CpSwapExact {
             .boxed()
     }
     fn cases(&self, tier: Tier) -> u32 {
-        tier.pick(400_000, 40_000_000)
+        tier.pick(4_000_000, 400_000_000)
     }
     fn min_nontrivial(&self) -> f64 {
         0.05
@@ -292,7 +292,7 @@ impl Check for CpSwapMonotone {
             .boxed()
     }
     fn cases(&self, tier: Tier) -> u32 {
-        tier.pick(100_000, 10_000_000)
+        tier.pick(1_000_000, 100_000_000)
     }
     fn test(&self, c: &MonoCase, rec: &Rec) -> TResult {
         let (op, ap, o1) = (c.offer_pool.u128(), c.ask_pool.u128(), c.offer.u128());
